@@ -13,11 +13,18 @@ open NodisVerif NodisVerif.Translated NodisVerif.GoLib NodisVerif.SnapStrings
 def fnvStep (h : Int) (c : UInt8) : Int := bxor .u32 (wrap .u32 (h * 16777619)) (c.toNat : Int)
 
 theorem strings_Fnv32_eq_fold (key : Bytes) : strings.Fnv32 key = .ok (key.foldl fnvStep 2166136261) := by
-  have h := forIn_irange_idx_fold (fun (s : Int) c => bxor .u32 (wrap .u32 (s * 16777619)) c) key [] 2166136261
-  simp only [List.length_nil, List.nil_append, Int.natCast_zero] at h
-  unfold strings.Fnv32
-  simp only [bind, Except.bind] at h ⊢
-  rw [h]; rfl
+  first
+  | -- the indexed loop `for i := 0; i < len(key); i++ { … key[i] … }`
+    (have h := forIn_irange_idx_fold (fun (s : Int) c => bxor .u32 (wrap .u32 (s * 16777619)) c) key [] 2166136261
+     simp only [List.length_nil, List.nil_append, Int.natCast_zero] at h
+     unfold strings.Fnv32
+     simp only [bind, Except.bind] at h ⊢
+     rw [h]; rfl)
+  | -- the same loop written `for _, c := range []byte(key)`
+    (have h := forIn_enum_fold (fun (s : Int) c => bxor .u32 (wrap .u32 (s * 16777619)) c) key 2166136261
+     unfold strings.Fnv32
+     simp only [bind, Except.bind] at h ⊢
+     rw [h]; rfl)
 
 theorem strings_Fnv32_append (a b : Bytes) :
     strings.Fnv32 (a ++ b) = .ok (b.foldl fnvStep (a.foldl fnvStep 2166136261)) := by
@@ -27,7 +34,16 @@ example : strings.Fnv32 [] = .ok 2166136261 := by decide
 example : strings.Fnv32 [97] = .ok 84696446 := by decide   -- FNV-1 of "a" = 0x050c5d7e
 
 theorem strings_ToUpper_is_snapshot : strings.ToUpper = Snap.strings.ToUpper := by
-  first | rfl | (funext v; simp [strings.ToUpper, Snap.strings.ToUpper])
+  first
+  | rfl
+  | (funext v; simp [strings.ToUpper, Snap.strings.ToUpper]; done)
+  | -- same loop with another (equivalent) body: compare the bodies pointwise
+    (funext v
+     have hf : ∀ (f g : Int × Int → Bytes → M (ForInStep Bytes)), f = g →
+         (makeBytes (len v) >>= fun b => (forIn (runes v) b f >>= fun s => pure s)) =
+         (makeBytes (len v) >>= fun b => (forIn (runes v) b g >>= fun s => pure s)) := by
+       intro f g h; rw [h]
+     exact hf _ _ (by funext x s; split <;> split <;> simp_all <;> omega))
 
 theorem strings_ToUpper_ascii (v : Bytes) (h : isAscii v) : strings.ToUpper v = .ok (v.map upByte) := by
   rw [strings_ToUpper_is_snapshot]; exact ToUpper_ascii v h
